@@ -95,7 +95,7 @@ def symbol_values(o):
 def gen_case(rnd, tier):
     from vlib import apm, tight
     opts = {"include": rnd.random() < 0.4, "insert": rnd.random() < 0.4, "odd_base": rnd.random() < 0.1}
-    prog, ref, info = tight.gen_program(rnd, opts=opts)
+    prog, ref, info = tight.gen_program(rnd, opts=opts, charset=rnd.choice(["bk", "bk", "utf-8", "koi8-r", "cp866"]))
     # probe tables: '.word <every label of the file>, .' appended to each linked file
     for f, ctx in zip(prog.files, info["ctxs"]):
         if ctx.labels and not any(s.k == "simple" and s.d == ".end" for s in f.stmts):
@@ -211,7 +211,7 @@ def run_case(case, cnt=None, root=None):
         texts = refcheck.render_all(prog)
         sub = tempfile.mkdtemp(prefix="p-", dir=root)
         files = refcheck.materialise(prog, texts, sub)
-        o = asm.assemble(files, wall=120)
+        o = asm.assemble(files, charset=prog.charset, wall=120)
         c = {}
         verdict, msgs = refcheck.compare(prog, o, c)
         for k, v in c.items():
